@@ -58,12 +58,16 @@ fn c12_check(c: &ProbeCase, st: &mut Stats) -> CheckResult {
     let mut sets = feature_sets();
     // default build first
     sets.sort_by_key(|s| s != DEFAULT_SET);
+    let mut exports: Vec<String> = Vec::new();
     for set in &sets {
         let r = run_probe(set, &js)?;
         if let Some(e) = r.get("error") {
             return Err(format!("feature set {set}: {}", e.as_str().unwrap_or("?")));
         }
-        let t = r.get("transcript").cloned().ok_or("probe result without transcript")?;
+        let mut t = r.get("transcript").cloned().ok_or("probe result without transcript")?;
+        if let Some(o) = t.as_object_mut() {
+            exports.push(o.remove("export").and_then(|e| e.as_str().map(|s| s.to_string())).unwrap_or_default());
+        }
         match &reference {
             None => reference = Some(t),
             Some(d) => {
@@ -75,6 +79,42 @@ fn c12_check(c: &ProbeCase, st: &mut Stats) -> CheckResult {
                 }
             }
         }
+    }
+    // exchange round: every build imports the state ANOTHER build exported after its run, repairs it and runs the
+    // case on it; the transcripts must be the ones of the first round
+    let exchange = match c {
+        ProbeCase::Ops { exchange, hangup_after: None, mirror: false, .. } => *exchange,
+        ProbeCase::Adf { exchange, .. } => *exchange,
+        _ => None,
+    };
+    if let (Some(off), true) = (exchange, exports.len() == sets.len() && exports.iter().all(|e| !e.is_empty())) {
+        let n = sets.len();
+        for (i, set) in sets.iter().enumerate() {
+            let from = (i + 1 + (off as usize) % (n - 1)) % n;
+            let mut c2 = c.clone();
+            match &mut c2 {
+                ProbeCase::Ops { import, .. } | ProbeCase::Adf { import, .. } => *import = Some(exports[from].clone()),
+            }
+            let js2 = serde_json::to_string(&c2).map_err(|e| e.to_string())?;
+            let r = run_probe(set, &js2)?;
+            if let Some(e) = r.get("error") {
+                return Err(format!("feature set {set} working on the state exported by {}: {}", sets[from], e.as_str().unwrap_or("?")));
+            }
+            let mut t = r.get("transcript").cloned().ok_or("probe result without transcript")?;
+            if let Some(o) = t.as_object_mut() {
+                o.remove("export");
+            }
+            let d = reference.as_ref().unwrap();
+            if *d != t {
+                return Err(format!(
+                    "feature set {set} working on the state exported by {} answers differently from the default build: {}",
+                    sets[from],
+                    first_difference(d, &t)
+                ));
+            }
+        }
+        st.label("exchange_round(import of another build's export)");
+        st.count("probe_runs", sets.len() as u64);
     }
     st.count("probe_runs", sets.len() as u64);
     let nt = match c {
@@ -128,11 +168,25 @@ fn first_difference(a: &Value, b: &Value) -> String {
 }
 
 pub fn probe_ops_case() -> BoxedStrategy<ProbeCase> {
-    (program(6, 40, true), any::<u8>(), proptest::option::weighted(0.25, any::<u8>()), proptest::bool::weighted(0.2))
-        .prop_map(|(prog, goal_var, hangup_after, mirror)| {
+    (program(6, 40, true), any::<u8>(), proptest::option::weighted(0.25, any::<u8>()), proptest::bool::weighted(0.2), proptest::option::weighted(0.3, any::<u8>()))
+        .prop_map(|(prog, goal_var, hangup_after, mirror, exchange)| {
             // a serde / rebuild re-materialisation detaches the sender anyway: hang-ups only on plain programs
             let plain = !prog.ops.iter().any(|o| matches!(o, crate::bddmodel::Op::Serde | crate::bddmodel::Op::Rebuild | crate::bddmodel::Op::AdfNodeList | crate::bddmodel::Op::AdfSerde | crate::bddmodel::Op::SerdeNoFix | crate::bddmodel::Op::RebuildStream | crate::bddmodel::Op::SerdePartialCache(_)));
-            ProbeCase::Ops { prog, goal_var, hangup_after: if plain { hangup_after } else { None }, mirror: plain && mirror }
+            ProbeCase::Ops { prog, goal_var, hangup_after: if plain { hangup_after } else { None }, mirror: plain && mirror, import: None, exchange }
+        })
+        .boxed()
+}
+
+/// op sequences whose node stream is mirrored (frontend builds: channel; others: node list) or whose listener hangs up
+pub fn probe_stream_case() -> BoxedStrategy<ProbeCase> {
+    (program(6, 40, false), any::<u8>(), any::<u8>(), proptest::bool::weighted(0.7))
+        .prop_map(|(prog, goal_var, h, mirror)| ProbeCase::Ops {
+            prog,
+            goal_var,
+            hangup_after: if mirror { None } else { Some(h) },
+            mirror,
+            import: None,
+            exchange: None,
         })
         .boxed()
 }
@@ -148,8 +202,9 @@ fn probe_case() -> BoxedStrategy<ProbeCase> {
         sort_strategy(),
         0u8..4,
         proptest::collection::vec(calls::call_strategy(true), 1..7),
+        proptest::option::weighted(0.3, any::<u8>()),
     )
-        .prop_map(|(a, sort, backend, mut calls)| {
+        .prop_map(|(a, sort, backend, mut calls, exchange)| {
             // every case also asks the query kinds named in the property
             calls.push(Call::PathQueries);
             calls.push(Call::FormulaCountsNaive);
@@ -160,6 +215,8 @@ fn probe_case() -> BoxedStrategy<ProbeCase> {
                 sort,
                 backend,
                 calls,
+                import: None,
+                exchange,
             }
         });
     prop_oneof![ops, adf].boxed()
